@@ -146,6 +146,32 @@ def subst_case(asm, acc, seed, idx):
     items = randprog.gen(rng, CFGS[idx % len(CFGS)])
     # extra: constants inside %hi/%lo/%position bases and shift amounts are produced by constify (any {'i':..} operand)
     citems, ndefs = subst_items(rng, items)
+    clash = None
+    if idx % 3 == 1 and ndefs:
+        # constants and labels live in separate namespaces: a label of the same name elsewhere in the program must not change what a
+        # constant operand means.  (the label emits nothing, so the literal program keeps its layout; it gets the same label)
+        names = [it['name'] for it in citems if it['k'] == 'const' and it['name'].startswith('K')]
+        if names:
+            clash = {'k': 'label', 'name': rng.choice(names)}
+            pos = rng.randrange(len(items) + 1)
+            k = 0
+            # insert at the same structural position in both programs (after the `pos`-th non-constant item)
+            def insert(seq):
+                out, seen = [], 0
+                done = False
+                for it in seq:
+                    if not done and it['k'] != 'const' and seen == pos:
+                        out.append(clash)
+                        done = True
+                    if it['k'] != 'const':
+                        seen += 1
+                    out.append(it)
+                if not done:
+                    out.append(clash)
+                return out
+            items = insert(items)
+            citems = insert(citems)
+            acc['ctr']['pairs_with_label_named_like_a_constant'] += 1
     lit_lines = P.render(items)
     con_lines = P.render(citems)
     case = {'kind': 'subst', 'seed': seed, 'idx': idx}
